@@ -136,9 +136,9 @@ reg('C13', 'harness.crash', design_ref='6/C13',
     expect_labels=['C13:old-or-new', 'C13:untouched', 'C13:len', 'C13:load'])
 REGISTRY['C13']['stubs'] = _arch_stubs() + ['crash = freeze of the model at a symbolic system-call index (BaseException at every later syscall of the dying writer)']
 reg('C14', 'harness.conc', design_ref='6/C14',
-    bounds={'quick': 'dir and file archives (pickle) with 2 prior entries; 19 (dir) + 12 (file) pairs of operations {writer of a new key / overwrite / delete} x {second writer on a distinct key, getitem, contains, len, iter, __asdict__, cache.load(), opener} and 2 triples (two writers + reader); opener with the default in-memory cache in front (cached=True) on an empty and on a filled archive; writers whose data stays in the userspace buffer until close (symbolic choice); every schedule with at most 2 pre-emptions at system-call granularity (which process starts, where it is pre-empted, who continues) - symbolic choices, exploration closed',
+    bounds={'quick': 'dir and file archives (pickle) with 2 prior entries; 19 (dir) + 12 (file) pairs of operations {writer of a new key / overwrite / delete} x {second writer on a distinct key, getitem, contains, len, iter, __asdict__, cache.load(), opener} and 2 triples (two writers + reader); opener with the default in-memory cache in front (cached=True) on an empty and on a filled archive; 10 writer/reader pairs on the sqlite-file table archive (yield points at klepto\'s execute/commit/select calls on the real sqlite3); writers whose data stays in the userspace buffer until close (symbolic choice); every schedule with at most 2 pre-emptions at system-call granularity (which process starts, where it is pre-empted, who continues) - symbolic choices, exploration closed',
             'thorough': 'at most 3 pre-emptions for pairs, 2 for triples; json variants'},
-    outside='SQL-table archive (sqlite inter-process locking is C/OS level: not applicable); schedules with more pre-emptions than the bound; more than 3 processes; threads sharing one handle',
+    outside='sqlite page-level locking between real OS processes (C/OS level: not applicable) - the sqlite-file archive is covered only for writer/reader pairs interleaved at the granularity of klepto\'s own statements (execute / commit / select), no writer/writer pairs; schedules with more pre-emptions than the bound; more than 3 processes; threads sharing one handle',
     stubs=[], assumptions=['processes = threads with strict hand-over at every model system call; each has its own archive handle opened beforehand', 'values are atoms, keys concrete'],
     expect_labels=['C14:no-lost-entry', 'C14:stored-value', 'C14:no-phantom', 'C14:no-missing', 'C14:len'])
 REGISTRY['C14']['stubs'] = _arch_stubs() + ['scheduler: strict hand-over at FS.sys, symbolic pre-emption decisions']
@@ -164,7 +164,7 @@ TEXT = {
     'C20': {'level': 'within the bounds, the clone obtained through the real dill equals the original (contents, statistics, configuration), is independent in memory, and every later observable equals that of a never-pickled twin', 'note': _N, 'technique': _T},
     'C19': {'level': 'for every program in the family and every call form within the bound, isvalid/validate agree with the outcome of binding the same call on a stub with the same signature, and the function is never called (closed enumeration of a finite structural space through symbolic selectors)', 'note': _N, 'technique': _T},
     'C13': {'level': 'for every crash point of every operation in the bound (symbolic crash index decided by z3, exploration closed), a fresh handle reads without error, sees old-or-new for touched keys, unchanged untouched keys and no never-stored key; counterexamples are confirmed by killing a real writer process at every mutating os call on a real file system', 'note': _N, 'technique': _T},
-    'C14': {'level': 'for every schedule within the pre-emption bound (symbolic scheduling decisions, closed exploration) and all values, writers on distinct keys lose nothing and readers/openers never fail, never see a never-stored key or value, and (file archive) see a complete earlier or later dictionary; this is bounded symbolic exploration of interleavings - the weakest use of the technique here; SQL archives are not applicable', 'note': _N, 'technique': _T + '; bounded pre-emption schedule exploration'},
+    'C14': {'level': 'for every schedule within the pre-emption bound (symbolic scheduling decisions, closed exploration) and all values, writers on distinct keys lose nothing and readers/openers never fail, never see a never-stored key or value, and (file archive) see a complete earlier or later dictionary; this is bounded symbolic exploration of interleavings - the weakest use of the technique here; for the SQL archive only statement-level writer/reader interleavings are covered (sqlite\'s own locking is not applicable)', 'note': _N, 'technique': _T + '; bounded pre-emption schedule exploration'},
     'C15': {'level': 'within the history bounds (calls interleaved with dump/load/clear/toggle), info() equals ground-truth counters derived from before/after snapshots of memory and archive', 'note': _N, 'technique': _T},
 }
 NOT_APPLICABLE = []
